@@ -127,7 +127,7 @@ def _restore(path, old_bytes):
 			f.write(old_bytes)
 
 
-def _judge(ctx, desc, where, path, old_bytes, expected, counts):
+def _judge(ctx, desc, where, path, old_bytes, expected, counts, old_desc=None):
 	"""Examine the survivor; returns a one-letter outcome code or raises Violation."""
 	if not os.path.exists(path):
 		counts['absent'] += 1
@@ -147,7 +147,11 @@ def _judge(ctx, desc, where, path, old_bytes, expected, counts):
 		ctx.violation('C19.loader-crashed', f'{desc}: loader died on the survivor of a crash {where}', detail=str(r))
 	if oc == 'accepted-unreadable':
 		ctx.violation('C19.accepted-unreadable', f'{desc}: survivor of a crash {where} opens as a signature file but cannot be read', detail=str(r)[:400])
-	# loaded: must be exactly what was being written
+	# loaded: must be exactly what was being written - or, with a pre-existing file, exactly the old collection
+	# (the writer has not yet replaced it, even if it already touched a flag byte of the file)
+	if old_desc is not None and all(r.get(k) == old_desc.get(k) for k in ('k', 'prefix', 'n', 'dtype', 'arrays', 'ids', 'meta')):
+		counts['untouched'] += 1
+		return 'O'
 	diffs = []
 	if (r['k'], r['prefix']) != (expected['k'], expected['prefix']):
 		diffs.append(f'k-mer parameters {r["k"]}/{r["prefix"]}')
@@ -264,6 +268,7 @@ def scenario(ctx):
 
 	# pre-existing valid older file (different content)
 	old_bytes = None
+	old_desc = None
 	if pre == 'old_valid':
 		from gambit.kmers import KmerSpec
 		from gambit.sigs.base import SignatureArray, AnnotatedSignatures, SignaturesMeta, dump_signatures
@@ -273,6 +278,9 @@ def scenario(ctx):
 		                                          SignaturesMeta(id='old-file', name='older collection')))
 		with open(path, 'rb') as f:
 			old_bytes = f.read()
+		old_desc = crash.examine_forked(path)
+		if old_desc.get('outcome') != 'loaded':
+			raise HarnessError(f'pre-existing file does not load: {old_desc}')
 
 	counts = dict(absent=0, untouched=0, refused=0, loaded_equal=0)
 	# ---- baseline arm: no crash
@@ -283,7 +291,7 @@ def scenario(ctx):
 	B, W = r['info']['boundaries'], r['info']['syscalls']
 	sizes, kinds = r['info']['sizes'], r['info']['kinds']
 	names = r['info']['names']
-	code = _judge(ctx, desc, 'never (fault-free arm)', path, old_bytes, expected, counts)
+	code = _judge(ctx, desc, 'never (fault-free arm)', path, old_bytes, expected, counts, None)
 	if code != 'L':
 		ctx.violation('C19.loaded-different', f'{desc}: the fault-free write does not load back ({code})')
 	ctx.stats['executions'] += 1
@@ -299,7 +307,7 @@ def scenario(ctx):
 		ctx.fault('kill_at_h5_boundary')
 		ctx.tick()
 		ctx.stats['executions'] += 1
-		c = _judge(ctx, desc, f'before h5py call {i} ({names[i]}) of {B}', path, old_bytes, expected, counts)
+		c = _judge(ctx, desc, f'before h5py call {i} ({names[i]}) of {B}', path, old_bytes, expected, counts, old_desc)
 		out_b.append(c)
 		ctx.key(shape, 'h5', i, c)
 		ctx.state(shape, 'h5', c)
@@ -323,7 +331,7 @@ def scenario(ctx):
 			ctx.tick()
 			ctx.stats['executions'] += 1
 			c = _judge(ctx, desc, f'at write-class system call {j} of {W} ({kinds[j - 1:j]} {sz} bytes' + (f', torn after {tear}' if tear else '') + ')',
-			           path, old_bytes, expected, counts)
+			           path, old_bytes, expected, counts, old_desc)
 			out_s.append(c)
 			ctx.key(shape, 'sys', j, tear > 0, c)
 			ctx.state(shape, 'sys' if not tear else 'tear', c)
@@ -336,7 +344,7 @@ def scenario(ctx):
 		ctx.probe('raw_data_write_bypassing_sieve_buffer')
 	if counts['loaded_equal'] > 1:
 		ctx.probe('crash_after_last_metadata_write_loads_equal')
-	if 'U' in out_b or 'U' in out_s:
+	if 'U' in out_b or 'U' in out_s or 'O' in out_b or 'O' in out_s:
 		ctx.probe('crash_before_old_file_touched')
 	ctx.sample = dict(desc=desc, B=B, W=W, h5=''.join(out_b), sys=''.join(out_s))
 	_restore(path, None)
